@@ -678,6 +678,48 @@ fn op_strings(cx: &mut Ctx, a: &[u8], b: &[u8], k: u64, pl: Place) {
         }
     }
 }
+fn op_strings2(cx: &mut Ctx, a: &[u8], b: &[u8], k: u64, pl: Place) {
+    // byte-class operations of bmi2_string_ops on ASCII text (the scalar definitions truncate chars to
+    // bytes, so only ASCII has a tier-independent meaning); b = second string for the bulk comparisons
+    if !a.is_ascii() || !b.is_ascii() { return; }
+    use zipora::string::{CharClass, CharFilter};
+    let cell = "string::bmi2_string_ops/classes";
+    let cj = cx.case(cell, "strings2", a, b, k, pl);
+    cx.begin(cell, &cj, a.len() >= 8);
+    let sa: &[u8] = cx.ra.put(a, pl.a, b'7');
+    let sb: &[u8] = cx.rb.put(b, pl.b, b'7');
+    let st = unsafe { std::str::from_utf8_unchecked(sa) };
+    let st2 = unsafe { std::str::from_utf8_unchecked(sb) };
+    let p = zipora::string::Bmi2StringProcessor::new();
+    let filters = vec![CharFilter::AlphaOnly, CharFilter::DigitOnly, CharFilter::AlnumOnly, CharFilter::NoWhitespace,
+                       CharFilter::KeepChars(vec![b'a', b'Z', b'0']), CharFilter::RemoveChars(vec![b'a', b' ', b'[' ])];
+    for f in filters {
+        let want: Vec<u8> = a.iter().cloned().filter(|&x| f.matches_byte(x)).collect();
+        let name = format!("filter_chars_bmi2({:?})", f);
+        check!(cx, cell, &cj, p.filter_chars_bmi2(st, f.clone()).into_bytes(), want, name);
+    }
+    let classes = vec![vec![CharClass::Alpha], vec![CharClass::Digit, CharClass::Space], vec![CharClass::Punct], vec![CharClass::Alnum],
+                       vec![CharClass::Range(b'@', b'`')], vec![CharClass::Custom(vec![b'z', b'{'])]];
+    for cs in classes {
+        let want: Vec<bool> = a.iter().map(|&x| cs.iter().any(|c| c.matches_byte(x))).collect();
+        check!(cx, cell, &cj, p.char_class_match_bmi2(st, &cs), want, "char_class_match_bmi2");
+    }
+    // substrings
+    let n = a.len();
+    let ranges: Vec<(usize, usize)> = vec![(0, n), (n / 2, n - n / 2), (n.min(1), n.saturating_sub(1).min(9)), (n.saturating_sub(8), n.min(8)), (n, 0)];
+    let want: Vec<String> = ranges.iter().map(|&(s0, l)| st[s0..s0 + l].to_string()).collect();
+    check!(cx, cell, &cj, p.extract_substrings_bmi2(st, &ranges).ok(), Some(want), "extract_substrings_bmi2");
+    // bulk operations switch to the accelerated path at 4 elements
+    let mut variants: Vec<String> = vec![st.to_string(), st2.to_string(), st.to_uppercase(), format!("{}x", st), st.to_string()];
+    if n > 0 { let mut v = a.to_vec(); v[n - 1] ^= 1; variants.push(String::from_utf8(v).unwrap()); }
+    for cnt in [3usize, 4, variants.len()] {
+        let strs: Vec<&str> = variants.iter().take(cnt).map(|x| x.as_str()).collect();
+        let pairs: Vec<(&str, &str)> = strs.iter().map(|x| (st, *x)).collect();
+        check!(cx, cell, &cj, p.compare_bulk_bmi2(&pairs), pairs.iter().map(|(x, y)| x == y).collect::<Vec<_>>(), "compare_bulk_bmi2");
+        check!(cx, cell, &cj, p.validate_bulk_bmi2(&strs), vec![true; strs.len()], "validate_bulk_bmi2");
+        check!(cx, cell, &cj, p.hash_bulk_bmi2(&strs, k), strs.iter().map(|x| p.hash_string_bmi2(x, k)).collect::<Vec<_>>(), "hash_bulk_bmi2 vs hash_string_bmi2");
+    }
+}
 /// detect_runs_scalar as written: runs of length >= 1? decided by reading the code: every maximal run
 fn scalar_runs_def(a: &[u8]) -> Vec<(u8, usize, usize)> {
     let mut runs: Vec<(u8, usize, usize)> = vec![];
@@ -750,6 +792,26 @@ fn op_bits(cx: &mut Ctx, x: u64, m: u64, k: u32) {
     if let Ok(v) = guarded(|| zipora::entropy::BitOps::new().parallel_deposit64(x, m)) { cx.coq(13, &m.to_le_bytes(), &[], x, Some(vec![v as i128]), &cj); }
     if let Ok(v) = guarded(|| zipora::entropy::BitOps::new().parallel_extract64(x, m)) { cx.coq(14, &m.to_le_bytes(), &[], x, Some(vec![v as i128]), &cj); }
     if let Ok(v) = guarded(|| zipora::entropy::BitOps::new().reverse_bits64(x)) { cx.coq(15, &[], &[], x, Some(vec![v as i128]), &cj); }
+    {
+        use zipora::entropy::bit_ops::{CompressionBmi2Dispatcher, CompressionOperation};
+        let d = CompressionBmi2Dispatcher::new();
+        let (st, ln) = (k % 64, 1 + (m % 32) as u32);
+        if st + ln <= 64 {
+            check!(cx, cell, &cj, d.dispatch_entropy_extract(x, st, ln), ((x >> st) & ((1u64 << ln) - 1)) as u32, "CompressionBmi2Dispatcher::dispatch_entropy_extract");
+        }
+        check!(cx, cell, &cj, d.dispatch_variable_length_decode(x, &[m, !m, m & 0xFFFF_FFFF]), vec![ref_pext(x, m) as u32, ref_pext(x, !m) as u32, ref_pext(x, m & 0xFFFF_FFFF) as u32], "dispatch_variable_length_decode");
+        let ws = [x, m, 0, u64::MAX];
+        check!(cx, cell, &cj, d.dispatch_bit_stream_process(&ws, CompressionOperation::PopCount), ws.iter().map(|&w| ref_popcnt(w) as u64).collect::<Vec<_>>(), "dispatch_bit_stream_process(PopCount)");
+        check!(cx, cell, &cj, d.dispatch_bit_stream_process(&ws, CompressionOperation::LeadingZeros), ws.iter().map(|&w| w.leading_zeros() as u64).collect::<Vec<_>>(), "dispatch_bit_stream_process(LeadingZeros)");
+        check!(cx, cell, &cj, d.dispatch_bit_stream_process(&ws, CompressionOperation::TrailingZeros), ws.iter().map(|&w| w.trailing_zeros() as u64).collect::<Vec<_>>(), "dispatch_bit_stream_process(TrailingZeros)");
+        check!(cx, cell, &cj, d.dispatch_bit_stream_process(&ws, CompressionOperation::BitReverse), ws.iter().map(|&w| ref_rev(w, 64)).collect::<Vec<_>>(), "dispatch_bit_stream_process(BitReverse)");
+        // EntropyBitOps::extract_bits: 16-bit stream, offset from the left, defined for offset >= 1 and offset + width <= 16
+        let (off, wd) = (1 + k % 15, 1 + (m % 15) as u32);
+        if off + wd <= 16 {
+            let want = (((x as u16) >> (16 - off - wd)) as u32) & ((1u32 << wd) - 1);
+            check!(cx, cell, &cj, e.extract_bits(x, off, wd), want, "EntropyBitOps::extract_bits");
+        }
+    }
     // the free-standing BMI2 helpers the above delegate to
     use zipora::succinct::rank_select::bmi2_acceleration::*;
     let cell2 = "succinct::bmi2_acceleration/word_ops";
@@ -803,6 +865,7 @@ fn run_one(cx: &mut Ctx, c: &Value) {
         "crc" => op_crc(cx, &a, k as u32, (k >> 32) as usize, pl),
         "codec" => op_codec(cx, &a, pl),
         "strings" => op_strings(cx, &a, &b, k, pl),
+        "strings2" => op_strings2(cx, &a, &b, k, pl),
         "hist" => op_hist(cx, &a, pl),
         "bits" => {
             let mut x = [0u8; 8]; let mut m = [0u8; 8];
@@ -968,6 +1031,7 @@ fn generate(cx: &mut Ctx, thorough: bool) {
             if r.chance(1, 5) { p.truncate(p.len() / 2); }
         }
         op_strings(cx, &a, &p, r.next(), rand_place(&mut r));
+        if a.is_ascii() { let b2: Vec<u8> = if r.chance(1, 2) { a.clone() } else { p.clone() }; let a2: Vec<u8> = a.iter().map(|&x| if r.chance(1, 6) { *r.pick(&[b' ', b'\t', b'9', b'!', b'~']) } else { x }).collect(); op_strings2(cx, &a2, &b2, r.next(), rand_place(&mut r)); }
     }
     // 5. bit helpers
     let nbits = if thorough { 100000 } else { 8000 };
@@ -1105,7 +1169,7 @@ fn cell_status(cell: &str) -> &'static str {
     match cell {
         "memory::simd_ops/compare" | "memory::simd_ops/find_byte" | "io::simd_validation/utf8" | "io::simd_validation/crc32c"
         | "string::hex" | "io::simd_encoding/base64" | "entropy::bit_ops" | "io::simd_memory::search/find_pattern"
-        | "io::simd_memory::search/find_any_of" | "string::bmi2_string_ops/utf8" => "M+S",
+        | "io::simd_memory::search/find_any_of" | "string::bmi2_string_ops/utf8" | "io::simd_memory::copy" => "M+S",
         _ => "S-only",
     }
 }
